@@ -87,3 +87,81 @@ Theorem C11_settings_alias_refuted :
      <> view_dict demo_heap 0.
 Proof. exact (conj alias_refuted shallow_copy_refuted). Qed.
 Print Assumptions C11_settings_alias_refuted.
+
+(* ====================================================================== on the REAL State model (Compose/)
+   The hypothesis [state_interface] of C11_logging_transparent is discharged: the store cell of Api/ApiModel.v is instantiated
+   with the `_values` dictionary of a State object of State/StateModel.v ([abs]), its operations with State.__getitem__ /
+   __setitem__ / clone of the model of the code as it is ([r_read] / [r_write] / [r_clone] = [get_state] / [set_now] /
+   [clone_state], C11_cell_is_state_object), and the ten interface facts are PROVED from the C01 lemmas for every graph with
+   [WF g] (C15 delivers [WF] for every input graph).  "The configuration is well-formed" becomes "its cells are State
+   objects of a store reachable from [init_store] by any history meeting the documented precondition of partial reverts"
+   ([RealCfg c] := exists S ix, [Reach S] /\ [RepI S ix (cS c)]; [Reach] is the hypothesis of C01_never_stale).
+   [F_mix g sm] (C07's locality; C02_F_mix_entrywise) is only used because that PAST history may contain partial reverts. *)
+From Leaspy Require Import State.StateModel State.StateNow Compose.StateApi Compose.StateApiProofs Compose.StateApiRunProofs
+                           Compose.ApiOnStateProofs Compose.ComposeExamples State.StateExec.
+
+(** The interface every C11 / C13 theorem assumes holds of the real State model, for every well-formed graph. *)
+Theorem C11_state_interface_discharged :
+  forall (V : Type) (g : graph V), WF g ->
+    state_interface V (r_read V g) (r_write V g) (r_clone V g) (r_anc V g) (r_indep V g) (r_simOn V g).
+Proof. exact real_state_interface. Qed.
+Print Assumptions C11_state_interface_discharged.
+
+(** An API store cell IS a State object seen through its `_values`: the three operations commute with [abs], whatever the
+    undo log and the fork mode of the object. *)
+Theorem C11_cell_is_state_object :
+  forall (V : Type) (g : graph V) (s : state V), Bounded g (values s) ->
+    (forall i, r_read V g (abs V g s) i = (abs V g (fst (get_state g s i)), out_opt V (snd (get_state g s i)))) /\
+    (forall i o, r_write V g (abs V g s) i o = abs V g (fst (set_now g s i o))) /\
+    (forall d kp, r_clone V g (abs V g s) = abs V g (clone_state s d kp)).
+Proof. exact cell_is_state_object. Qed.
+Print Assumptions C11_cell_is_state_object.
+
+(** Every State object of every reachable store is a consistent cache (C01 invariant + hyper-parameters in place). *)
+Theorem C11_reachable_states_consistent :
+  forall (V M IX : Type) (g : graph V) (sm : sem V M IX), WF g -> F_mix g sm ->
+  forall (S : StateModel.store V) (k : nat) (s : state V),
+    Reach V g M IX sm S -> nth_error S k = Some s ->
+    Good g s /\ Cache V g (abs V g s) /\ r_simOn V g top (abs V g s) (abs V g s).
+Proof. exact reach_cache. Qed.
+Print Assumptions C11_reachable_states_consistent.
+
+(** Logging is transparent on the real State model: no interface hypothesis left.  Both outcomes again consist of
+    reachable State objects. *)
+Theorem C11_logging_transparent_state :
+  forall (V M IX : Type) (g : graph V) (sm : sem V M IX), WF g -> F_mix g sm ->
+  forall tracked tape seed_pos (base seed : nat) (init : list (ev V)) (iters : list (list (ev V))) (fin : list (ev V))
+         (sched : nat -> list (list (ev V))) (c c1 : cfg V),
+    RealCfg V M IX g sm c ->
+    (forall i o, In o (sched i) -> read_only V o = true) ->
+    fit_run V (r_read V g) (r_write V g) (r_clone V g) tracked tape seed_pos base seed init iters fin sched c = Some c1 ->
+    exists c2,
+      fit_run V (r_read V g) (r_write V g) (r_clone V g) tracked tape seed_pos base seed init iters fin (no_observers V) c = Some c2
+      /\ same_results V (r_read V g) c1 c2 /\ RealCfg V M IX g sm c1 /\ RealCfg V M IX g sm c2.
+Proof. exact logging_transparent_state. Qed.
+Print Assumptions C11_logging_transparent_state.
+
+(** A whole fit (logged or not) on the API model IS one history of State-model operations — without any partial revert —
+    on the store of State objects, and the API store keeps representing that store (the clones observers made stay behind
+    as unreachable objects). *)
+Theorem C11_fit_is_state_history :
+  forall (V M IX : Type) (g : graph V) (sm : sem V M IX), WF g -> F_mix g sm ->
+  forall tracked tape seed_pos (d : bool) (base seed : nat) init iters fin sched (c c' : cfg V) (S : StateModel.store V) (ix : list nat),
+    RepI V g S ix (cS c) -> StateProofs.AllGood V g S ->
+    fit_run V (r_read V g) (r_write V g) (r_clone V g) tracked tape seed_pos base seed init iters fin sched c = Some c' ->
+    exists ops ix', forallb (@no_partial_revert V M IX) ops = true /\
+      RepI V g (fst (run_now g sm S ops)) ix' (cS c') /\ (exists new, ix' = ix ++ new).
+Proof. exact fit_run_refines. Qed.
+Print Assumptions C11_fit_is_state_history.
+
+(** Non-vacuity on a 7-node graph (hyper-parameter, parameter, population variable, individual variable, three derived
+    nodes) after a 14-operation past with a partial revert and a clone: hypotheses hold; an observer refills the cache an
+    assignment emptied (None -> 116); the logged fit finishes and equals the plain one. *)
+Theorem C11_state_example :
+  WF Demo.g /\ F_mix Demo.g Demo.sm /\ RealCfg xval (list bool) nat Demo.g Demo.sm Demo.c0 /\
+  (forall i o, In o (Demo.sched1 i) -> read_only xval o = true) /\
+  (Demo.final_view (Demo.a_fit_run 2 3 [] [Demo.iter1; Demo.iter1; Demo.iter1] Demo.fin1 Demo.sched1 Demo.c0)
+   = Demo.final_view (Demo.a_fit_run 2 3 [] [Demo.iter1; Demo.iter1; Demo.iter1] Demo.fin1 (no_observers xval) Demo.c0)
+   /\ Demo.final_view (Demo.a_fit_run 2 3 [] [Demo.iter1; Demo.iter1; Demo.iter1] Demo.fin1 Demo.sched1 Demo.c0) <> None).
+Proof. exact (conj Demo.g_wf (conj Demo.g_fmix (conj Demo.c0_real (conj Demo.observers_are_read_only Demo.logged_equals_plain)))). Qed.
+Print Assumptions C11_state_example.
